@@ -2,8 +2,10 @@
 // point in front of every shared-memory action (atomic_long_read / atomic_long_set /
 // abstraction_cas and the per-slot uSWSR_Ptr_Buffer push/pop).  The yield points are put in by
 // function-like macros defined in THIS translation unit after the primitives' headers and before
-// MPMCqueues.hpp; fix8 itself is untouched.  Real threads pass a baton (mutex + condvar): one
-// schedule character = one shared action of that thread.
+// MPMCqueues.hpp; fix8 itself is untouched.  The "threads" of a scheduled case are coroutines
+// (ucontext, one stack each) resumed by the scheduler: one schedule character = one shared action
+// of that thread (fast and independent of the machine's load); the free-running mode uses real
+// threads.
 //
 // cases (one per line)                                         result
 //   q <nq> <slotsize> <progs> <sched>   raw uMPMC_Ptr_Queue     trace tokens
@@ -19,9 +21,16 @@
 //   returned v (k = the ticket that thread won last), <t>e<k> pop returned false (k = last preadC it read)
 #include "hcommon.hpp"
 #include <thread>
-#include <mutex>
-#include <condition_variable>
 #include <atomic>
+#include <ucontext.h>
+#if defined(__SANITIZE_ADDRESS__)
+#include <sanitizer/common_interface_defs.h>
+#define FIBER_START(save, bottom, size) __sanitizer_start_switch_fiber(save, bottom, size)
+#define FIBER_FINISH(save, bottom, size) __sanitizer_finish_switch_fiber(save, bottom, size)
+#else
+#define FIBER_START(save, bottom, size) ((void)0)
+#define FIBER_FINISH(save, bottom, size) ((void)0)
+#endif
 #include <chrono>
 #include <memory>
 #include <sched.h>
@@ -42,10 +51,8 @@ namespace ff {		// MPMCqueues.hpp includes this header inside namespace ff as we
 static const int FUEL = 400;			// drain passes (the model uses the same number)
 static bool g_sched = false;			// baton mode (false: free running, yields are no-ops)
 static bool g_deref = false;			// payloads are long* to be dereferenced for printing
-static std::mutex g_mu;
-static std::condition_variable g_cv;
-static int g_turn = -1;				// -1: the scheduler; else the thread that may run
 static bool g_abandon = false;
+static std::atomic<bool> g_abort(false);	// free-running mode: the deadline has passed, leave the queue code
 static std::vector<std::string> g_tok;
 
 struct Abandon {};
@@ -59,7 +66,25 @@ struct Local
 	unsigned long first_val = 0;		// last value read there
 	unsigned long ticket = 0;		// compare value of the last CAS this thread won
 };
-static thread_local Local tl;
+
+// one coroutine per model thread
+struct Fiber
+{
+	ucontext_t ctx;
+	char *stack = nullptr;			// from g_stacks (allocated once, reused by every case)
+	void *fake = nullptr;			// ASan fake-stack handle while switched out
+	bool finished = false;
+	Local loc;
+};
+static const size_t STACK_SIZE = 256 * 1024;
+static std::vector<char *> g_stacks;
+static std::vector<std::unique_ptr<Fiber>> g_fib;
+static Fiber *g_cur = nullptr;			// the running coroutine (scheduled mode only)
+static ucontext_t g_main;
+static void *g_main_fake = nullptr;
+static const void *g_main_bottom = nullptr;
+static size_t g_main_size = 0;
+#define tl (g_cur->loc)
 
 static void tok(char kind, unsigned long v)
 {
@@ -72,14 +97,24 @@ static unsigned long payload(const void *d)
 	return g_deref ? static_cast<unsigned long>(*static_cast<const long *>(d)) : reinterpret_cast<unsigned long>(d);
 }
 
-// park at a yield point: give the baton back and wait for the next turn
+// back to the scheduler; `last` = this coroutine will not be resumed again
+static void to_main(bool last)
+{
+	Fiber *me(g_cur);
+	FIBER_START(last ? nullptr : &me->fake, g_main_bottom, g_main_size);
+	swapcontext(&me->ctx, &g_main);
+	FIBER_FINISH(me->fake, &g_main_bottom, &g_main_size);
+}
+
+// park at a yield point: give control back and wait to be resumed
 static void verif_yield()
 {
-	if (!g_sched) return;
-	std::unique_lock<std::mutex> l(g_mu);
-	g_turn = -1;
-	g_cv.notify_all();
-	g_cv.wait(l, [] { return g_turn == tl.id; });
+	if (!g_sched)
+	{
+		if (g_abort.load(std::memory_order_relaxed)) throw Abandon();
+		return;
+	}
+	to_main(false);
 	if (g_abandon)
 		throw Abandon();
 }
@@ -213,20 +248,18 @@ struct ValClient : Client
 	}
 };
 
-static std::vector<char> g_finished;
+struct Job { Client *cl; const Prog *prog; };
+static std::vector<Job> g_job;
 
-static void worker(int id, Client *cl, const Prog *prog)
+static void fiber_main(int id)
 {
+	FIBER_FINISH(g_cur->fake, &g_main_bottom, &g_main_size);
 	tl = Local();
 	tl.id = id;
-	{
-		std::unique_lock<std::mutex> l(g_mu);
-		g_cv.wait(l, [id] { return g_turn == id; });
-	}
 	try
 	{
-		if (g_abandon) throw Abandon();
-		for (const Op& o : *prog)
+		Client *cl(g_job[id].cl);
+		for (const Op& o : *g_job[id].prog)
 		{
 			tl.first_addr = nullptr;
 			tl.in_push = o.push;
@@ -245,61 +278,83 @@ static void worker(int id, Client *cl, const Prog *prog)
 		}
 	}
 	catch (const Abandon&) {}
-	std::unique_lock<std::mutex> l(g_mu);
-	g_finished[id] = 1;
-	g_turn = -1;
-	g_cv.notify_all();
+	g_cur->finished = true;
+	to_main(true);
+	abort();	// never resumed
 }
 
 // let thread t run until it parks again (or finishes)
 static void give(int t)
 {
-	std::unique_lock<std::mutex> l(g_mu);
-	g_turn = t;
-	g_cv.notify_all();
-	g_cv.wait(l, [] { return g_turn == -1; });
+	Fiber *f(g_fib[t].get());
+	if (f->finished) return;
+	g_cur = f;
+	FIBER_START(&g_main_fake, f->stack, STACK_SIZE);
+	swapcontext(&g_main, &f->ctx);
+	FIBER_FINISH(g_main_fake, nullptr, nullptr);
+	g_cur = nullptr;
 }
 
-static std::string run_sched(Client *cl, const std::vector<Prog>& progs, const std::string& sched)
+// round-robin over the unfinished threads among 0..n-1, one action each per pass
+static bool drain(int n)
+{
+	for (int pass(0); ; ++pass)
+	{
+		std::vector<int> todo;
+		for (int t(0); t < n; ++t)
+			if (!g_fib[t]->finished) todo.push_back(t);
+		if (todo.empty()) return true;
+		if (pass == FUEL) return false;
+		for (int t : todo)
+			give(t);
+	}
+}
+
+static std::string run_sched(Client *cl, std::vector<Prog> progs, const std::string& sched)
 {
 	const int n(static_cast<int>(progs.size()));
+	// the draining thread: id n, (number of pushes + 1) pops, runs after everybody else
+	unsigned long npush(0);
+	for (const Prog& p : progs)
+		for (const Op& o : p)
+			if (o.push) ++npush;
+	progs.push_back(Prog(npush + 1, Op{ false, 0 }));
 	g_tok.clear();
-	g_finished.assign(n, 0);
 	g_abandon = false;
-	g_turn = -1;
 	g_sched = true;
-	std::vector<std::thread> thr;
-	for (int t(0); t < n; ++t)
-		thr.emplace_back(worker, t, cl, &progs[t]);
-	for (int t(0); t < n; ++t)		// priming: run to the first yield point (no shared action)
+	g_fib.clear();
+	g_job.clear();
+	for (int t(0); t <= n; ++t)
+	{
+		g_job.push_back(Job{ cl, &progs[t] });
+		std::unique_ptr<Fiber> f(new Fiber);
+		while (g_stacks.size() <= static_cast<size_t>(t))
+			g_stacks.push_back(static_cast<char *>(malloc(STACK_SIZE)));
+		f->stack = g_stacks[t];
+		getcontext(&f->ctx);
+		f->ctx.uc_stack.ss_sp = f->stack;
+		f->ctx.uc_stack.ss_size = STACK_SIZE;
+		f->ctx.uc_link = nullptr;
+		makecontext(&f->ctx, reinterpret_cast<void (*)()>(fiber_main), 1, t);
+		g_fib.push_back(std::move(f));
+	}
+	for (int t(0); t <= n; ++t)		// priming: run to the first yield point (no shared action)
 		give(t);
 	if (sched != "-")
 		for (char c : sched)
 		{
 			const int t(hexv(c));
-			if (t >= 0 && t < n && !g_finished[t])
+			if (t >= 0 && t < n)
 				give(t);
 		}
-	bool stuck(false);
-	for (int pass(0); ; ++pass)
-	{
-		std::vector<int> todo;
-		for (int t(0); t < n; ++t)
-			if (!g_finished[t]) todo.push_back(t);
-		if (todo.empty()) break;
-		if (pass == FUEL) { stuck = true; break; }
-		for (int t : todo)
-			give(t);
-	}
-	if (stuck)
-	{
-		g_abandon = true;
-		for (int t(0); t < n; ++t)
-			if (!g_finished[t]) give(t);
-	}
-	for (std::thread& t : thr)
-		t.join();
+	drain(n);
+	drain(n + 1);
+	g_abandon = true;			// whoever is still inside the queue code leaves it now
+	for (int t(0); t <= n; ++t)
+		give(t);
+	g_abandon = false;
 	g_sched = false;
+	g_fib.clear();
 	std::string out;
 	for (const std::string& s : g_tok) { if (!out.empty()) out.push_back(' '); out += s; }
 	return out.empty() ? "-" : out;
@@ -334,53 +389,73 @@ static std::string run_slot(unsigned long size, const std::string& ops)
 static std::string run_free(int np, int nc, unsigned long ops, unsigned long nq)
 {
 	g_sched = false;
+	g_abort.store(false);
 	const unsigned long total(static_cast<unsigned long>(np) * ops);
-	std::unique_ptr<RawClient> cl(new RawClient(nq, 2048));
+	RawClient *cl(new RawClient(nq, 2048));	// leaked on purpose when threads had to be aborted
 	std::vector<std::atomic<unsigned char>> seen(total + 2);
 	for (auto& s : seen) s.store(0);
 	std::atomic<unsigned long> got(0), dup(0), ord(0), sum(0), bad(0);
+	std::atomic<int> running(np + nc);
 	std::atomic<bool> go(false);
 	std::vector<std::thread> thr;
-	const auto deadline(std::chrono::steady_clock::now() + std::chrono::seconds(120));
 	for (int p(0); p < np; ++p)
 		thr.emplace_back([&, p] {
 			while (!go.load()) sched_yield();
-			for (unsigned long j(0); j < ops; ++j)
-				cl->push(static_cast<unsigned long>(p) * ops + j + 1);
+			try
+			{
+				for (unsigned long j(0); j < ops; ++j)
+					cl->push(static_cast<unsigned long>(p) * ops + j + 1);
+			}
+			catch (const Abandon&) {}
+			running.fetch_sub(1);
 		});
 	for (int c(0); c < nc; ++c)
 		thr.emplace_back([&] {
 			std::vector<long> last(np, -1);
 			while (!go.load()) sched_yield();
-			unsigned spins(0);
-			while (got.load() < total)
+			try
 			{
-				unsigned long v(0);
-				if (!cl->pop(v))
+				while (got.load() < total)
 				{
-					sched_yield();
-					if ((++spins & 0x3ff) == 0 && std::chrono::steady_clock::now() > deadline) break;
-					continue;
+					unsigned long v(0);
+					if (!cl->pop(v))
+					{
+						sched_yield();
+						continue;
+					}
+					got.fetch_add(1);
+					if (v < 1 || v > total) { bad.fetch_add(1); continue; }
+					sum.fetch_add(v);
+					if (seen[v].fetch_add(1) != 0) dup.fetch_add(1);
+					const int p(static_cast<int>((v - 1) / ops));
+					const long j(static_cast<long>((v - 1) % ops));
+					if (j <= last[p]) ord.fetch_add(1);
+					last[p] = j;
 				}
-				got.fetch_add(1);
-				if (v < 1 || v > total) { bad.fetch_add(1); continue; }
-				sum.fetch_add(v);
-				if (seen[v].fetch_add(1) != 0) dup.fetch_add(1);
-				const int p(static_cast<int>((v - 1) / ops));
-				const long j(static_cast<long>((v - 1) % ops));
-				if (j <= last[p]) ord.fetch_add(1);
-				last[p] = j;
 			}
+			catch (const Abandon&) {}
+			running.fetch_sub(1);
 		});
+	const auto deadline(std::chrono::steady_clock::now() + std::chrono::seconds(15 + total / 20000));
 	go.store(true);
+	while (running.load() > 0)
+	{
+		std::this_thread::sleep_for(std::chrono::milliseconds(2));
+		if (std::chrono::steady_clock::now() > deadline)
+			g_abort.store(true);
+	}
 	for (std::thread& t : thr)
 		t.join();
+	const bool aborted(g_abort.load());
+	g_abort.store(false);
 	unsigned long lost(0);
 	for (unsigned long v(1); v <= total; ++v)
 		if (seen[v].load() == 0) ++lost;
 	std::ostringstream os;
 	os << "FREE total=" << got.load() << " dup=" << dup.load() + bad.load() << " lost=" << lost
 		<< " ord=" << ord.load() << " sum=" << sum.load();
+	if (aborted) os << " TIMEOUT";
+	else delete cl;
 	return os.str();
 }
 
